@@ -54,7 +54,7 @@ var profC09 = &profile{
 	digestKind: []int{0, 0, 1, 2},
 	trailing:   []int{0, 0, 1, 2},
 	stopModes:  []string{"clean", "crash"},
-	instFaults: []string{"", "", "stream-fail", "crash-mid-load", "leader-stop", "crash-after-persist"},
+	instFaults: []string{"", "stream-fail", "stream-fail", "crash-mid-load", "leader-stop", "crash-after-persist"},
 }
 
 func init() {
